@@ -1,4 +1,4 @@
-import QclibModel.Proofs.RotLaws
+import QclibModel.Proofs.SemLemmas
 import QclibModel.Spec.Ucr
 import Mathlib.Tactic.Abel
 /-
@@ -20,17 +20,6 @@ theorem setBit_same (b : Bits) (t : Nat) (v : Bool) : setBit b t v t = v := by
 
 theorem setBit_other (b : Bits) {t i : Nat} (v : Bool) (h : i ≠ t) : setBit b t v i = b i := by
   simp [setBit, h]
-
-theorem setBit_setBit (b : Bits) (t : Nat) (u v : Bool) :
-    setBit (setBit b t u) t v = setBit b t v := by
-  funext i
-  by_cases hi : i = t <;> simp [setBit, hi]
-
-theorem setBit_self (b : Bits) (t : Nat) (v : Bool) (h : b t = v) : setBit b t v = b := by
-  funext i
-  by_cases hi : i = t
-  · subst hi; simp [setBit, h]
-  · simp [setBit, hi]
 
 /-! ### 2×2 matrices over a commutative ring -/
 
@@ -163,9 +152,9 @@ theorem Rep.nil : Rep ([] : Circ Θ) (fun _ => (1 : Mat2 R)) := by
   refine ⟨fun _ _ => rfl, fun ψ => ?_⟩
   funext b
   by_cases h : b 0 = true
-  · simp [sem, applyFam, h, setBit_self b 0 true h]
+  · simp [sem, applyFam, h, setBit_self' b 0 true h]
   · have h' : b 0 = false := by simpa using h
-    simp [sem, applyFam, h', setBit_self b 0 false h']
+    simp [sem, applyFam, h', setBit_self' b 0 false h']
 
 theorem Rep.append {c d : Circ Θ} {f g : Bits → Mat2 R} (hc : Rep c f) (hd : Rep d g) :
     Rep (c ++ d) (fun b => g b * f b) := by
@@ -187,9 +176,9 @@ theorem applyMcu_one (c : Nat) (m : Mat2 R) (ψ : State R) :
   · simp [applyMcu, applyFam, ctrlOk, hc]
   · have hc' : b c = false := by simpa using hc
     by_cases h : b 0 = true
-    · simp [applyMcu, applyFam, ctrlOk, hc', h, setBit_self b 0 true h]
+    · simp [applyMcu, applyFam, ctrlOk, hc', h, setBit_self' b 0 true h]
     · have h' : b 0 = false := by simpa using h
-      simp [applyMcu, applyFam, ctrlOk, hc', h', setBit_self b 0 false h']
+      simp [applyMcu, applyFam, ctrlOk, hc', h', setBit_self' b 0 false h']
 
 theorem Rep.rot (ax : Axis) (θ : Θ) :
     Rep [rotG ax θ 0] (fun _ => (rotMat ax θ : Mat2 R)) := by
